@@ -169,8 +169,10 @@ impl<T: Read + Write + ScmSocket> ClientConnection<T> {
             }
             Err(ConnectionError::InvalidWrite) => {
                 // A `try_write` call was performed on a connection that has nothing
-                // to write.
-                return Err(ServerError::ConnectionError(ConnectionError::InvalidWrite));
+                // to write (stale `EPOLLOUT` interest). This is not an error of the server.
+                if self.state != ClientConnectionState::Closed {
+                    self.state = ClientConnectionState::AwaitingIncoming;
+                }
             }
             _ => {
                 // Check if we still have bytes to write for this connection.
